@@ -419,6 +419,8 @@ def run(prog, rep):
     import_verdicts(prog, rep, "C01", ("ENUM-1",), "ENUM-1",
                     "the exporter writes the dtype as Literal(prop.dtype), i.e. through str(): a DType member has to print as its name, or the graph "
                     "carries `DType.url` and the import drops the dtype")
+    from .common_tables import stateless_tools_rule
+    stateless_tools_rule(prog, rep, "STATE-2", ("RDFWriter", "RDFReader"))
     # reader side of TRUTH-3: an object fetched from the graph is never tested for truthiness (a Literal 0 / 0.0 is falsy)
     for fname in ("Document", "Section", "Property"):
         pf = Rd.lookup_method(PARSE[fname])
